@@ -87,6 +87,13 @@ def r_dispatch(ck: Checker, f: Func, rule: str = "R-DISPATCH") -> None:
                 raise Unsupported(f"accept: candidate classes {norm(lp.iter)[:60]} not recognised", lp)
         loop_kinds.append(kind)
         cv = lp.target.id
+        for st in walk_body(lp.body):
+            # m = getattr(visitor, f"visit_{c.__name__}", m): every later class that has a method overwrites the match
+            if isinstance(st, ast.Assign) and len(st.targets) == 1 and isinstance(st.targets[0], ast.Name) and isinstance(st.value, ast.Call) \
+                    and dotted(st.value.func) == "getattr" and len(st.value.args) == 3 and norm(st.value.args[0]) == visitor \
+                    and cv in norm(st.value.args[1]) and norm(st.value.args[2]) == st.targets[0].id \
+                    and classify(lp.iter) == "mro" and not any(isinstance(x, (ast.Break, ast.Return)) for x in walk_body(lp.body)):
+                overwrite.append(f"`{norm(st)[:70]}` in a loop without break: the last class of the MRO that has a visit_<Class> method wins, not the first")
         inner = decision_tree(lp.body, resolve=True)
         key = k_none(norm(G(cv)))
         mv = None
@@ -146,7 +153,17 @@ def r_dispatch(ck: Checker, f: Func, rule: str = "R-DISPATCH") -> None:
         ast.copy_location(summary, lp)
         return [ast.fix_missing_locations(summary)]
 
-    leaves = decision_tree(body, resolve=True, loop_hook=hook, preset={k_none(FIRST): False})
+    overwrite: list[str] = []
+    try:
+        leaves = decision_tree(body, resolve=True, loop_hook=hook, preset={k_none(FIRST): False})
+    except Unsupported:
+        if not overwrite:
+            raise
+        leaves = []
+    if overwrite:
+        ck.violation(rule, f, fn, "accept: the MRO is walked in order and the first class with a visit_<Class> method wins", positive=True,
+                     construct=f"accept: {overwrite[0]}")
+        return
     k_own = k_none(norm(G("self.__class__")))
     k_own2 = k_none(norm(G("type(self)")))
     k_found = "__some_mro_class_has_method__"
@@ -390,6 +407,30 @@ def r_ident_return(ck: Checker) -> None:
         ck.violation("R-IDENT-RETURN", v, v.node, what, construct="visit does not delegate to node.accept(self)")
 
 
+def r_rule_in_iterator(ck: Checker) -> None:
+    """A visitor method is user code that may raise anything, StopIteration included.  Called from inside an iterator's __next__
+    (map / starmap / filter with the visit callable as function) a StopIteration it raises is taken for the end of the iteration: the
+    loop or the list()/tuple()/zip() around it stops silently and a truncated result is returned instead of the exception (positive pattern)."""
+    n = 0
+    for f in list(ck.repo.functions([ck.repo.mod(VIS)])) + [ck.repo.func(NODE, "ASTNode.accept")]:
+        fn = f.raw or f.node
+        bad = None
+        for c in ast.walk(fn):
+            if isinstance(c, ast.Call) and dotted(c.func) in ("map", "itertools.starmap", "starmap", "filter", "itertools.filterfalse", "filterfalse") and c.args:
+                fun = _resolve(fn, c.args[0]) if isinstance(fn, ast.FunctionDef) else c.args[0]
+                txt = norm(fun)
+                if any(isinstance(x, ast.Attribute) and x.attr in ("visit", "generic_visit", "accept", "transform") for x in ast.walk(fun)) \
+                        or any(isinstance(x, ast.Call) and dotted(x.func) == "getattr" and "visit" in norm(x) for x in ast.walk(fun)):
+                    bad = (c, txt)
+        n += 1
+        what = f"{f.qualname}: no visitor method runs inside an iterator's __next__ (an exception of a rule, StopIteration included, reaches the caller)"
+        if bad:
+            ck.violation("R-TRANSFORM-PATH", f, bad[0], what, positive=True,
+                         construct=f"{f.qualname}: {norm(bad[0])[:60]} calls {bad[1][:30]} lazily — a StopIteration raised by a rule silently ends the iteration")
+        else:
+            ck.holds("R-TRANSFORM-PATH", f, f.node, what)
+
+
 def run(ck: Checker) -> None:
     ck.explanation = (
         "Decision trees of accept (strict arm / MRO arm / fallback), of the per-child loop body of _transform_children over the atoms "
@@ -402,6 +443,7 @@ def run(ck: Checker) -> None:
     ck.guard("R-DISPATCH", lambda: r_dispatch(ck, ck.repo.func(NODE, "ASTNode.accept")))
     ck.guard("R-TRANSFORM-PATH", lambda: r_transform_path(ck, ck.repo.func(VIS, "ASTTransformVisitor._transform_children")))
     ck.guard("R-IDENT-RETURN", lambda: r_ident_return(ck))
+    ck.guard("R-TRANSFORM-PATH", lambda: r_rule_in_iterator(ck))
     ck.guard("R-PRESENCE", lambda: T.r_presence(ck))
     ck.require_count("R-DISPATCH", 2)
     ck.require_count("R-TRANSFORM-PATH", 3)
